@@ -96,7 +96,7 @@ func genChunkWorldSet(r *rand.Rand, quick bool) *plan.Plan {
 		}
 		k.MaxSegFileSize = []uint64{0, 1, 15_000}[r.IntN(3)]
 		wp := &plan.Plan{Property: "C06", Knobs: k, Params: map[string]any{}}
-		inc := plan.Incarnation{Boot: "full", SchedSeed: r.Uint64() | 1}
+		inc := plan.Incarnation{Boot: "full", SchedSeed: r.Uint64()>>11 | 1}
 		pos := 0
 		for pos < len(evs) {
 			n := 1 + r.IntN(len(evs)/(1+w)+1)
